@@ -132,6 +132,15 @@ pub fn account(op: &Op, o: &Outcome, pre: &PreState, st: &mut HistStats, c: &mut
                 st.label_overwrites += 1;
                 c.inc("bind.label-overwrite");
             }
+            if pre.n > 0 && pre.labels_before == pre.n && pre.label_exists {
+                c.inc(&format!("bind.rebind-on-full-vertex.N{}", pre.n));
+            }
+            if pre.n > 0 && pre.labels_before + 1 == pre.n && !pre.label_exists {
+                c.inc(&format!("bind.fills-vertex-to-N.N{}", pre.n));
+            }
+            if pre.group_size_before == 15 && matches!(o.bind_arm, Some(crate::model::BindArm::UG | crate::model::BindArm::GU)) {
+                c.inc("bind.fills-group-to-16");
+            }
         }
         Op::Put(..) => {
             let s = match (pre.has_data, pre.unread) {
@@ -188,6 +197,11 @@ pub struct PreState {
     pub unread: bool,
     pub label_overwrite: bool,
     pub bind_joins_with_unread: bool,
+    /// labels on the source vertex before a bind, and N
+    pub labels_before: usize,
+    pub n: usize,
+    pub label_exists: bool,
+    pub group_size_before: usize,
 }
 
 pub fn pre_state(m: &Model, op: &Op) -> PreState {
@@ -206,6 +220,10 @@ pub fn pre_state(m: &Model, op: &Op) -> PreState {
     if let Op::Bind(a, b, l) = op {
         if let (Some(x1), Some(x2)) = (m.verts.get(a), m.verts.get(b)) {
             p.label_overwrite = x1.edges.iter().any(|(k, t)| k == l && t != b);
+            p.labels_before = x1.edges.len();
+            p.n = m.n;
+            p.label_exists = x1.edges.iter().any(|(k, _)| k == l);
+            p.group_size_before = x1.group.or(x2.group).map_or(0, |g| m.groups[&g].len());
             let j1 = x1.group.is_none() && x1.data.is_some() && x1.unread;
             let j2 = x2.group.is_none() && x2.data.is_some() && x2.unread;
             p.bind_joins_with_unread = j1 || j2;
